@@ -55,3 +55,8 @@ package elf
 //@   input:m elf_memory(n1, n2 - 1, 2)
 //@   ensures[suffix-of-containing-block-or-nil] lookup_exact(result, addr)
 //@   ensures[reads-only] heap_unchanged()
+
+//@ func (Block).Address
+//@   enum n in MEMSHAPES
+//@   input:b elf_block(n)
+//@   ensures[suffix-or-nil] lookup_exact(result, a)
